@@ -72,6 +72,8 @@ def make_copy(kind, a, rng):
     # hold the objects it was given, not keep the original's
     ov = {k: copy.deepcopy(v) for k, v in a.__arguments__.items()
           if isinstance(k, str) and not C.is_value(v)}
+    # (copy.deepcopy hands back the very same object for tuples of immutables)
+    ov = {k: v for k, v in ov.items() if v is not a.__arguments__[k]}
     fn = fdl.copy_with if kind.startswith('copy_with') else fdl.deepcopy_with
     b = fn(a, **ov)
     OVERRIDES[id(b)] = (b, ov)
